@@ -130,7 +130,17 @@ func runC09(c *Ctx) {
 		case 7:
 			cs.IncClass, cs.IncCost = "larger-than-maxcost", cs.MaxCost+1
 		case 8:
-			cs.IncClass, cs.IncCost, cs.IncKey = "already-resident", int64(1+rng.Intn(4)), rng.Intn(npop)
+			if rng.Chance(0.5) {
+				cs.IncClass, cs.IncCost, cs.IncKey = "already-resident", int64(1+rng.Intn(4)), rng.Intn(npop)
+			} else {
+				// two Sets of a new key before either is applied: the second finds the key resident in the policy
+				cs.IncClass, cs.IncCost = "duplicate-pending", 0
+				if slack > 0 {
+					cs.IncCost = 1 + int64(rng.Intn(int(slack)))
+				} else {
+					cs.IncClass, cs.IncCost = "exceeds-by-1", 1
+				}
+			}
 		default:
 			cs.IncClass, cs.IncCost = "fits", 0
 			if slack > 0 {
@@ -208,6 +218,55 @@ func c09One(c *Ctx, rng *lab.RNG, cs c09Case) {
 	c09cur = mon
 	v := cl.NextVal(cs.IncKey)
 	wasResident := cs.IncClass == "already-resident"
+	var dupVal uint64
+	if cs.IncClass == "duplicate-pending" {
+		// hold the applier so that both Sets of the new key travel as new items
+		g := lab.NewGate(l)
+		hold := cl.NextVal(0)
+		cl.Set(0, hold, cs.Costs[0], 0) // an overwrite of resident key 0 with its own cost: occupies the applier's hand
+		vals[0] = hold
+		if err := g.AwaitHeld(); err != nil {
+			r.Inconc(1)
+			g.Open()
+			return
+		}
+		first := cl.Set(cs.IncKey, v, cs.IncCost, 0)
+		dupVal = cl.NextVal(cs.IncKey)
+		second := cl.Set(cs.IncKey, dupVal, cs.IncCost, 0)
+		g.Open()
+		l.SetHook(nil)
+		cl.Wait()
+		c09cur = nil
+		if !first || !second {
+			r.Inconc(1)
+			return
+		}
+		post := l.C.Snapshot()
+		var rej, rejExit, firstCb int
+		for _, e := range l.CallbacksSince(n0) {
+			if e.Val == dupVal && e.Kind == lab.EvOnReject {
+				rej++
+			}
+			if e.Val == dupVal && e.Kind == lab.EvOnExit {
+				rejExit++
+			}
+			if e.Val == v && (e.Kind == lab.EvOnReject || e.Kind == lab.EvOnEvict) {
+				firstCb++
+			}
+		}
+		_, adm := post.KeyCosts[incHash]
+		r.Obs("decisions", 1)
+		r.DistinctKey("%d/duplicate-pending/adm%v", npop, adm)
+		got, hit := cl.Get(cs.IncKey)
+		if !adm || firstCb != 0 || !hit || got != v {
+			fail("fitting-newcomer-not-admitted-cleanly", fmt.Sprintf("first of two pending Sets of a fitting new key: admitted=%v callbacks=%d Get=(%#x,%v)", adm, firstCb, got, hit), nil)
+			return
+		}
+		if rej != 1 || rejExit != 1 {
+			fail("rejection-not-reported", fmt.Sprintf("second pending Set of a key that is resident by then: OnReject=%d OnExit=%d (want 1 and 1)", rej, rejExit), nil)
+		}
+		return
+	}
 	ok := cl.Set(cs.IncKey, v, cs.IncCost, 0)
 	cl.Wait()
 	c09cur = nil
